@@ -42,10 +42,31 @@ fn update_kind(u: &rotonda::payload::Update) -> &'static str {
 }
 const UPDATE_KINDS: [&str; 7] = ["single", "bulk", "withdraw", "withdrawBulk", "queryResult", "upstreamStatus", "outputStream"];
 
+/// routecore's `AfiSafiType` (one plain and one ADD-PATH `Nlri` variant each), with the numbers of its table
+fn afisafi_name(t: routecore::bgp::nlri::afisafi::AfiSafiType) -> Option<&'static str> {
+    use routecore::bgp::nlri::afisafi::AfiSafiType as T;
+    match t {
+        T::Ipv4Unicast => Some("Ipv4Unicast"), T::Ipv4Multicast => Some("Ipv4Multicast"),
+        T::Ipv4MplsUnicast => Some("Ipv4MplsUnicast"), T::Ipv4MplsVpnUnicast => Some("Ipv4MplsVpnUnicast"),
+        T::Ipv4RouteTarget => Some("Ipv4RouteTarget"), T::Ipv4FlowSpec => Some("Ipv4FlowSpec"),
+        T::Ipv6Unicast => Some("Ipv6Unicast"), T::Ipv6Multicast => Some("Ipv6Multicast"),
+        T::Ipv6MplsUnicast => Some("Ipv6MplsUnicast"), T::Ipv6MplsVpnUnicast => Some("Ipv6MplsVpnUnicast"),
+        T::Ipv6FlowSpec => Some("Ipv6FlowSpec"), T::L2VpnVpls => Some("L2VpnVpls"), T::L2VpnEvpn => Some("L2VpnEvpn"),
+        T::Unsupported(_, _) => None,
+    }
+}
+fn afisafi_universe() -> String {
+    use routecore::bgp::nlri::afisafi::AfiSafiType as T;
+    let all = [T::Ipv4Unicast, T::Ipv4Multicast, T::Ipv4MplsUnicast, T::Ipv4MplsVpnUnicast, T::Ipv4RouteTarget, T::Ipv4FlowSpec,
+        T::Ipv6Unicast, T::Ipv6Multicast, T::Ipv6MplsUnicast, T::Ipv6MplsVpnUnicast, T::Ipv6FlowSpec, T::L2VpnVpls, T::L2VpnEvpn];
+    all.iter().map(|t| { let (a, s): (u16, u8) = (*t).into(); format!("{}:{}:{}", afisafi_name(*t).unwrap(), a, s) }).collect::<Vec<_>>().join(" ")
+}
+
 fn universe(area: &str) -> Option<String> {
     match area {
         "bmpdispatch" => { let _ = bmp_kind; Some(BMP_KINDS.join(" ")) }
         "ribupdate" => { let _ = update_kind; Some(UPDATE_KINDS.join(" ")) }
+        "codecafi" => Some(afisafi_universe()),
         _ => None,
     }
 }
@@ -56,7 +77,7 @@ fn main() {
     let mut rec = Recorder::new("a case names one extracted table; nontrivial = the engine knows that table's universe (enum variants pinned by an exhaustive Rust match)");
     let areas: Vec<String> = match &args.replay {
         Some(p) => replay_cases(p).into_iter().filter_map(|c| c.strip_prefix("universe ").map(|s| s.to_string())).collect(),
-        None => ["bmpdispatch", "ribupdate"].iter().map(|s| s.to_string()).collect(),
+        None => ["bmpdispatch", "ribupdate", "codecafi"].iter().map(|s| s.to_string()).collect(),
     };
     for a in areas {
         let u = universe(&a);
